@@ -16,7 +16,9 @@ answer. Choice families:
 WS_REQ = [' ', '  ', '\t', '\n', '\r\n', ' \n ']
 WS_INNER = [' ', '  ', '\t', '\n', '\r\n']
 COMMENTS = [' /* c */ ', ' -- c\n', ' /*+ h */ ', ' --+ h\n', ' # c\n', '/* c */', '\n-- c\n',
-            ' /* a\n b */ ']
+            ' /* a\n b */ ', ' /* a *//* b */', ' -- a\n-- b\n', ' /* a */ -- b\n', ' /*+ h *//* c */ ']
+# comments before the first / after the last token of a statement
+EDGE_COMMENTS = ['/* c */ ', '-- c\n', ' /* c */', ' -- c', ' /* a *//* b */', '\n-- c\n', ' /*+ h */', ' # c']
 CASES = ['lower', 'upper', 'title', 'alt']
 NAME_FORMS = ['{}', '"{} q"', '`{}`', '"{};"', 'é{}', '"{} \n q"', '"{}\\"\r\nq"', '`{} \n q`', '"{}""q"', '[{} q]']
 STR_FORMS = ["'x'", "'it''s'", "'a;b'", "'a--b'", "'a/*b'", "'a long string literal'", "''", "'é'",
@@ -50,6 +52,7 @@ class Builder:
         self.toks = []
         self.si = 0
         self.style = ctx.choose('style', 'style', STYLES)
+        self.head = self.tail = ''
         self.kinds = []          # expected get_type per statement (when known)
 
     # ---- choice helpers
@@ -137,7 +140,13 @@ class Builder:
 
     # ---- rendering
     def text(self):
-        return ''.join(t.filler + t.text for t in self.toks)
+        return self.head + ''.join(t.filler + t.text for t in self.toks) + self.tail
+
+    def finish(self):
+        """statement-edge comments (choice points met last)"""
+        self.head = self.ctx.choose('cm', 'cmhead', [''] + EDGE_COMMENTS[:2] + ['/*+ h */ ', '/* a *//* b */ '])
+        self.tail = self.ctx.choose('cm', 'cmtail', [''] + EDGE_COMMENTS[2:])
+        return self
 
     # ================================================================== nonterminals
     def colref(self, k, base='c', gap='req', ws=None):
@@ -666,6 +675,7 @@ def build_stmt(ctx, seed_index):
     sc = SeedCtx(ctx, vals)
     b = Builder(sc)
     b.stmt_kind = b.stmt('s', Builder.STMTS.index(kind))
+    b.finish()
     missing = [k for k in vals if k not in sc.used]
     if missing and not getattr(ctx, 'over', None):
         raise RuntimeError(f'seed {name}: overrides never met: {missing}')
